@@ -1,8 +1,16 @@
 (* C10 property theorems (verified checker): the breakdown conserves the path weight and attributes it correctly. *)
 From HTA.lib Require Import Base Dag.
-From HTA.model Require Import C08_Model.
-From HTA.proof Require Import C08_Proofs.
+From HTA.model Require Import C08_Model C08_Host.
+From HTA.proof Require Import C08_Proofs C08_HostProofs.
 Open Scope Z_scope.
+
+(* host side, by proof about the builder's state machine: for EVERY depth-first traversal of properly nested events in time order,
+   every operator-span edge is attributed to an existing event of the thread whose span covers the edge's time range (also when
+   events without graph nodes, such as user annotations, sit anywhere in the nest); dependency edges carry no attribution *)
+Theorem C10_host_attribution_covers : forall tab acts t0,
+  wf_actions tab [] [] t0 acts = true -> Forall (attribution_covers tab) (host_edges_of tab acts).
+Proof. exact host_attribution_covers. Qed.
+Print Assumptions C10_host_attribution_covers.
 
 Theorem C10_row_rule : forall clipped N r, brow_ok clipped N r = true ->
   exists nu nv, find_node N (r_u r) = Some nu /\ find_node N (r_v r) = Some nv /\
